@@ -76,6 +76,7 @@ func bunModel(c *core.Ctx, rel string) *bunq.Model {
 		if pk == nil {
 			panic(core.Abort{Msg: "package not loaded: " + rel})
 		}
+		setBunqResolver(c)
 		m := bunq.Build([]*packages.Package{pk})
 		c.Stats["bun_statements:"+rel] = len(m.Stmts)
 		return m
@@ -188,4 +189,18 @@ func DumpBun(c *core.Ctx, args []string) {
 }
 
 // newEval builds a symbolic string evaluator for a declaration.
+// setBunqResolver lets the SQL text evaluator read through single-return helpers.
+func setBunqResolver(c *core.Ctx) {
+	ix := index(c)
+	bunq.FuncDeclOf = func(f *types.Func) *ast.FuncDecl {
+		if d := ix.Decls[f]; d != nil {
+			return d.Decl
+		}
+		if d := ix.Decls[f.Origin()]; d != nil {
+			return d.Decl
+		}
+		return nil
+	}
+}
+
 func newEval(d *astx.DeclInfo) *bunq.Evaluator { return bunq.NewEvaluator(d.Pkg.TypesInfo, d.Decl) }
